@@ -254,6 +254,14 @@ package atree
 //@             as(slabs[k], *ArrayDataSlab).header.size <= targetThreshold + maxInlineArrayElementSize && as(slabs[k], *ArrayDataSlab).header.size >= targetThreshold)
 //@   loop 1: invariant (forall j, k :: 0 <= j && j < k && k < len(slabs) ==> slabs[j] != slabs[k])
 
+//@   loop 2: invariant len(slabs) >= 1 && (forall k :: 0 <= k && k < len(slabs) ==> slabs[k] != nil && !allocatedBefore(slabs[k]) && isArr(slabs[k]))
+//@   loop 2: invariant (forall j, k :: 0 <= j && j < k && k < len(slabs) ==> slabs[j] != slabs[k])
+//@   loop 2: invariant (forall k :: 0 <= k && k < len(slabs) ==> is(slabs[k], *ArrayDataSlab)) || (forall k :: 0 <= k && k < len(slabs) ==> is(slabs[k], *ArrayMetaDataSlab))
+//@   loop 2: invariant (forall k :: 0 <= k && k < len(slabs) && is(slabs[k], *ArrayDataSlab) ==> plainADS(as(slabs[k], *ArrayDataSlab)) &&
+//@        as(slabs[k], *ArrayDataSlab).header.size <= maxThreshold && (k < len(slabs) - 1 ==> as(slabs[k], *ArrayDataSlab).header.size >= targetThreshold))
+//@   loop 3: invariant len(slabs) >= 2 && (forall k :: 0 <= k && k < len(slabs) ==> slabs[k] != nil && !allocatedBefore(slabs[k]) && isArr(slabs[k]))
+//@   loop 3: invariant (forall j, k :: 0 <= j && j < k && k < len(slabs) ==> slabs[j] != slabs[k])
+
 //@ iface ArraySlab.Header() (h)
 //@   ensures h == hdrOf(recv)
 //@   pure
